@@ -327,6 +327,41 @@ def run(case):
             wn.kill()
             if os.path.exists(path + "-wal"):
                 probes["old_database_in_wal_mode_with_wal_file_left"] = 1
+            if case.get("wal_force_first", True) and os.path.exists(path + "-wal"):
+                # create_db(force=True) right away, while the write-ahead log of the killed process is still there (any
+                # other connection in between would checkpoint and remove it): must equal a fresh import of the new input
+                fn = w.node()
+                rfq = call(fn, {"op": "create", "h": "y", "db": "a.db", "data": _src(case["new"], case["form"]),
+                                "kw": {"merge_strategy": "create_unique", "force": True}})
+                if not rfq["ok"]:
+                    V.append(viol("C19.force", "create_db(force=True) over a WAL-mode database failed: %s %s" % (rfq["exc"], rfq["msg"]),
+                                  kind="force_failed", exc=rfq["exc"], wal=True))
+                else:
+                    dy = call(fn, {"op": "dump", "h": "y", "relations": False})
+                    fn.close()
+                    o2 = w.node()
+                    call(o2, {"op": "open", "h": "o", "db": "a.db"})
+                    dz = call(o2, {"op": "dump", "h": "o", "relations": False})
+                    o2.close()
+                    with World("c19w_") as w3:
+                        m3 = w3.node()
+                        w3.call(m3, {"op": "create", "h": "y", "db": "a.db", "data": _src(case["new"], case["form"]), "kw": {"merge_strategy": "create_unique"}})
+                        dref = w3.call(m3, {"op": "dump", "h": "y", "relations": False})
+                        m3.close()
+                    for name_, dd_ in (("returned handle", dy), ("fresh process", dz)):
+                        if dd_["ok"] and dref["ok"] and [f["id"] for f in dd_["dump"]["features"]] != [f["id"] for f in dref["dump"]["features"]]:
+                            V.append(viol("C19.force", "create_db(force=True) over a WAL-mode database whose -wal file was left behind: the %s shows %d "
+                                          "features, a fresh import %d" % (name_, len(dd_["dump"]["features"]), len(dref["dump"]["features"])),
+                                          kind="force_not_fresh", wal=True))
+                            break
+                    probes["force_over_wal_leftovers"] = 1
+                if fn.alive:
+                    fn.close()
+                out["stats"] = w.stats
+                out["trace_hash"] = core.digest(journal)
+                out["nontrivial"] = True
+                out["sample"] = {"db": G.lines_of(case["db"]["feats"], _dial(case["db"]))[:4], "wal": True}
+                return out
         if case.get("do_a") and not V:
             d0 = file_digest(path)
             l0 = logical(raw_dump(path))
